@@ -244,6 +244,10 @@ class OutputReference:
                     break
                 overlap += 1
 
+            # VV: a scope that only shares its first few steps with the reference is not its producer
+            if overlap != len(other_loc):
+                continue
+
             if overlap > largest_overlap:
                 best = other_loc
                 largest_overlap = overlap
@@ -1585,9 +1589,15 @@ class ScopeStack:
         pattern_nested = re.compile(OutputReferenceNested)
 
         component_locations_to_check = [scope.location]
+        visited_locations = set()
 
         while component_locations_to_check:
             location = component_locations_to_check.pop()
+
+            # VV: steps that form a cycle are reported elsewhere, here we just need to terminate
+            if tuple(location) in visited_locations:
+                continue
+            visited_locations.add(tuple(location))
 
             scope: ScopeStack.Scope = self.scopes[tuple(location)]
             if isinstance(scope.template, Workflow):
@@ -1612,7 +1622,9 @@ class ScopeStack:
                             try:
                                 producer = self.scopes[tuple(location)]
                                 if isinstance(producer.template, Component) is False:
-                                    continue
+                                    # VV: the reference points to a Workflow (or to something that is not a step
+                                    # of it) instead of a Component - there is no producer to inspect
+                                    producer = None
                                 break
                             except KeyError:
                                 # VV: This location doesn't map to a component. The OutputReference must be pointing
@@ -2192,6 +2204,9 @@ class ComponentFlowIR:
         self.errors = errors
         self.template_dsl_location = list(template_dsl_location)
         self.is_replica = is_replica
+        # VV: locations of the Component instances whose outputs this one consumes
+        # (convert_outputreferences_to_datareferences() populates this)
+        self.producers: typing.Set[typing.Tuple[str, ...]] = set()
 
         self.flowir = scope.template.model_dump(
             by_alias=True, exclude_none=True, exclude_defaults=True, exclude_unset=True
@@ -2358,6 +2373,7 @@ class ComponentFlowIR:
                     )
                 )
                 continue
+            self.producers.add(tuple(producer))
             stage, producer = uid_to_name[producer]
 
             producer = f"stage{stage}.{producer}"
@@ -2727,6 +2743,27 @@ def namespace_to_flowir(
         except Exception as e:
             uncaught_errors.append(experiment.model.errors.DSLInvalidFieldError(
                 location=scope_location, underlying_error=e
+            ))
+
+    # VV: Steps cannot form direct, or indirect, cycles
+    def consumes_own_output(start: typing.Tuple[str, ...]) -> bool:
+        pending = list(components[start].producers)
+        seen = set()
+        while pending:
+            current = pending.pop()
+            if current == start:
+                return True
+            if current in seen or current not in components:
+                continue
+            seen.add(current)
+            pending.extend(components[current].producers)
+        return False
+
+    for scope_loc, comp in components.items():
+        if consumes_own_output(scope_loc):
+            uncaught_errors.append(experiment.model.errors.DSLInvalidFieldError(
+                location=comp.scope.dsl_location(),
+                underlying_error=ValueError("The computational graph contains a cycle")
             ))
 
     # VV: At this point we've done everything we could to resolve the DSL 2.0. We should have a mapping of
